@@ -477,6 +477,28 @@ func TestGvcReplay(t *testing.T) {
 	}
 }
 `}})
+	clauseScenarios = append(clauseScenarios,
+		clauseScenario{"ast.(*TaskfileGraph).Merge$2", "", scenario{pkgRel: "", what: "one file included twice by the same parent is merged in the order in which the reader's goroutines finished: task order and variable values differ between loads",
+			src: gvcHeader + `
+func TestGvcReplay(t *testing.T) {
+	dir := t.TempDir()
+	gvcWrite(t, dir, "Taskfile.yml", "version: '3'\nincludes:\n  a:\n    taskfile: ./inc.yml\n    vars: {WHO: from-a}\n  b:\n    taskfile: ./inc.yml\n    vars: {WHO: from-b}\n  c:\n    taskfile: ./inc.yml\n    vars: {WHO: from-c}\ntasks:\n  default:\n    cmds: [\"true\"]\n")
+	gvcWrite(t, dir, "inc.yml", "version: '3'\ntasks:\n  show:\n    cmds: [\"echo {{.WHO}}\"]\n")
+	seen := map[string]bool{}
+	for i := 0; i < 40; i++ {
+		var out bytes.Buffer
+		e := gvcExec(t, dir, &out, task.WithSilent(true))
+		var names []string
+		for name := range e.Taskfile.Tasks.Keys(nil) {
+			names = append(names, name)
+		}
+		seen[strings.Join(names, ",")] = true
+	}
+	if len(seen) > 1 {
+		t.Fatalf("GVC-REPLAY-REPRODUCED: 40 loads of the same Taskfile tree gave %d different task orders: %v", len(seen), seen)
+	}
+}
+`}})
 	clauseScenarios = append(clauseScenarios, clauseScenario{"fingerprint.(*TimestampChecker).OnError", "stampPath", scenario{pkgRel: "", what: "method timestamp: a failed run leaves the stamp file, the next run reports the task up to date",
 		src: gvcHeader + `
 func TestGvcReplay(t *testing.T) {
